@@ -798,7 +798,7 @@ class Rewriter:
         raise ExtractError("no block after position %d" % start)
 
     # R3 / R6 -------------------------------------------------------------
-    def splice_fn(self, ret_name, spec, loops, before, after_open=None, loop_open=None, at_end=None):
+    def splice_fn(self, ret_name, spec, loops, before, after_open=None, loop_open=None, at_end=None, tail_proof=None):
         """Name the result, insert requires/ensures after the signature, loop
         invariants before loop bodies, proof text before literal anchors."""
         inserts = []  # (pos, text)
@@ -881,6 +881,18 @@ class Rewriter:
             cb = match_close(m, ob)
             inserts.append((cb, cb, "\n" + at_end.rstrip() + "\n"))
             self.hit("R6-proof")
+        if tail_proof:
+            # the function's TAIL EXPRESSION (from the literal anchor to the end of the body) gets a name so
+            # that proof text can follow it: `let r__tail = <tail>; <proof> r__tail` (same value, same order)
+            lit, txt = tail_proof
+            idxs = [mm.start() for mm in re.finditer(re.escape(lit), self.text[ob:])]
+            if len(idxs) != 1:
+                raise ExtractError("%s: tail anchor %r found %d times" % (self.label, lit, len(idxs)))
+            cb = match_close(m, ob)
+            pos = ob + idxs[0]
+            inserts.append((cb, cb, ";\n" + txt.rstrip() + "\nr__tail\n"))
+            inserts.append((pos, pos, "let r__tail = "))
+            self.hit("R6-tail")
         for a, b, txt in sorted(inserts, key=lambda t: (t[0], t[1]), reverse=True):
             self.text = self.text[:a] + txt + self.text[b:]
 
